@@ -271,7 +271,9 @@ impl StoreBackend {
             } => {
                 // Complete the real tokio::fs future right here, so that operations are
                 // strictly sequential on disk whatever tokio's blocking pool does.
-                let r = park_block_on(backend.call(op.clone()));
+                // `unconstrained`: tokio's cooperative budget would otherwise make the fs future
+                // return Pending with a wake-up deferred to the scheduler we are blocking.
+                let r = park_block_on(tokio::task::unconstrained(backend.call(op.clone())));
                 match r {
                     Ok(Reply::List(mut l)) => {
                         l.sort();
